@@ -74,7 +74,18 @@ def _expectedFailure(func):
         try:
             func(*args, **kwargs)
         except Exception:
-            raise _ExpectedFailure(sys.exc_info())
+            exc_info = sys.exc_info()
+            try:
+                # Keep the traceback of the failure that was expected, as
+                # TestCase.expectFailure does.
+                case = getattr(func, "__self__", None)
+                if case is not None and not isinstance(
+                    exc_info[1], (SkipTest, _ExpectedFailure, _UnexpectedSuccess)
+                ):
+                    case._report_traceback(exc_info)
+                raise _ExpectedFailure(exc_info)
+            finally:
+                del exc_info
         raise _UnexpectedSuccess
 
     return wrapper
